@@ -1,5 +1,5 @@
 PROP = {
-    "coq": ["C15", "C15b", "C15c"],
+    "coq": ["C15", "C15b", "C15c", "C15d"],
     "exhaustive": False,
     "rule": "extractRole on synthetic x509.Certificate values (only Extensions populated) through VerifExtractRole: "
             "all 256 identifier octets x 13 length/content forms (+ as first/second of two role extensions); "
@@ -23,11 +23,21 @@ PROP = {
             "version changes, clients without a cache, random orders), so that later sessions are resumed when the server allows it: "
             "the role must be that of the leaf of the client of THAT session, resumed or not (DidResume and 'the client held a ticket' "
             "are recorded in the distribution only). tlsroleresumectl: the same harness client does resume against a crypto/tls server "
-            "that accepts its own tickets, and that server sees the client's leaf in PeerCertificates[0] of resumed sessions.",
+            "that accepts its own tickets, and that server sees the client's leaf in PeerCertificates[0] of resumed sessions."
+            " Scenario tlsrolemix (real servers, real TLS handshakes, Model/RoleMix.v mix_serve_sessions, theorems c15_mix_* of C15d): "
+            "ONE process running a tcp+tls server AND a plain tcp server side by side, and a history of 12..60 sessions on the two: "
+            "TLS sessions whose certificates carry role r1 / r2 / no role in the ways above, and plain TCP sessions, one strictly "
+            "after the other (the earlier session gone from its server's list before the next connects: TLS then plain alternating, "
+            "runs of each, plain sessions before the first TLS one) and overlapping (groups of TLS sessions open together and closed "
+            "together followed by groups of plain ones, a TLS session that stays while plain ones come and go and the reverse, a "
+            "sliding window of both kinds, random lifetimes), with requests right after the connect and again right before the close: "
+            "every handler invocation must reach the handler of the session's own server and carry the role of ITS session - the "
+            "empty role for every plain TCP session, the role stated by the session's own leaf for a TLS session - whatever "
+            "sessions came before, are open at the same time, or come later.",
     "assumptions": [
         "lengths are below 2^31 (Go's encoding/asn1 refuses larger ones; a TLS handshake message cannot carry one)",
         "extension values are octet strings (each element below 256)",
-        "TLS sessions hand extractRole(PeerCertificates[0]) to the handlers unchanged (server.go startTLS/handleTCPClient, read; exercised by the C14 handshake matrix and, for sequences of sessions on one server, by scenario tlsroleseq; with clients offering to resume, by scenario tlsroleresume)",
+        "TLS sessions hand extractRole(PeerCertificates[0]) to the handlers unchanged (server.go startTLS/handleTCPClient, read; exercised by the C14 handshake matrix and, for sequences of sessions on one server, by scenario tlsroleseq; with clients offering to resume, by scenario tlsroleresume; next to plain TCP sessions of a second server of the same process, by scenario tlsrolemix)",
         "crypto/tls restores version and peer certificates of the original session on a resumed one (tls_resume_documented; looked at by tlsroleresumectl), and a session cache is used by one client identity only",
     ],
     "trusted": [
